@@ -371,6 +371,11 @@ func TestC14(t *testing.T) {
 				{"unsupported on_error key", []config.MechanismConfig{{"authenticator": "anon"}}, []config.MechanismConfig{{"authorizer": "realallow"}}},
 				{"condition that does not compile", []config.MechanismConfig{{"authenticator": "anon"}, {"authorizer": "realallow", "if": "this is not cel ("}}, nil},
 				{"condition that is not boolean", []config.MechanismConfig{{"authenticator": "anon"}, {"authorizer": "realallow", "if": "1 + 1"}}, nil},
+				{"authorizer reference with a trailing blank", []config.MechanismConfig{{"authenticator": "anon"}, {"authorizer": "realallow "}}, nil},
+				{"authenticator reference with a trailing newline", []config.MechanismConfig{{"authenticator": "anon\n"}}, nil},
+				{"finalizer reference with a leading blank", []config.MechanismConfig{{"authenticator": "anon"}, {"finalizer": " noop"}}, nil},
+				{"error handler reference with a trailing tab", []config.MechanismConfig{{"authenticator": "anon"}}, []config.MechanismConfig{{"error_handler": "realdef\t"}}},
+				{"reference in another letter case", []config.MechanismConfig{{"authenticator": "Anon"}}, nil},
 				{"condition of dynamic type", []config.MechanismConfig{{"authenticator": "anon"}, {"authorizer": "realallow", "if": "Subject.Attributes.suspended"}}, nil},
 				{"condition that is a string", []config.MechanismConfig{{"authenticator": "anon"}, {"finalizer": "noop", "if": `Request.Header("X-A")`}}, nil},
 				{"condition that is a list", []config.MechanismConfig{{"authenticator": "anon"}, {"contextualizer": "probe:ctxbad", "if": "[true]"}}, nil},
